@@ -8,6 +8,7 @@ margins reported), the non-anchor part of image_molecules vs `imgwrap`.
 Oracle (independent of the model): float64 lattice-congruence of every displacement, bonded pairs at their brute-force minimum-image separation,
 periodic distances/angles/dihedrals before and after, cells/times/topology untouched, inplace semantics and memory sharing."""
 import json
+import os
 import warnings
 
 import numpy as np
@@ -463,6 +464,54 @@ def run(ctx):
             del t2_
         del t_, res_
         gc.collect()
+    # ---- a caller-supplied sorted_bonds: usable ones (a list of pairs, int64) give what the default order gives, unusable ones (an index
+    # beyond the last atom, a negative one) are refused — in a child process: the kernels index the coordinates with them unchecked
+    import subprocess, sys, textwrap, json
+    code = textwrap.dedent("""
+        import sys, json
+        sys.path.insert(0, %r)
+        import mdv_boot  # noqa: F401
+        import numpy as np, mdtraj as md
+        top = md.Topology(); ch = top.add_chain(); r = top.add_residue("ALA", ch)
+        at = [top.add_atom("C", md.element.carbon, r) for _ in range(4)]
+        top.add_bond(at[0], at[1]); top.add_bond(at[2], at[3])
+        xyz = np.array([[[0, 0, 0], [1.9, 0, 0], [1, 1, 1], [1, 2.95, 1]]], dtype=np.float32)
+        t = md.Trajectory(xyz, top, unitcell_lengths=[[2, 2, 2]], unitcell_angles=[[90, 90, 90]])
+        ref = t.make_molecules_whole().xyz.tolist()
+        out = {}
+        for name, sb in (("list", [[0, 1], [2, 3]]), ("int64", np.array([[0, 1], [2, 3]], np.int64)), ("beyond", [[0, 4]]), ("far-beyond", [[0, 100000000]]),
+                         ("negative", [[0, -1]]), ("very-negative", [[0, -70000]])):
+            for fname in ("whole", "image"):
+                try:
+                    if fname == "whole":
+                        r_ = t.make_molecules_whole(sorted_bonds=sb)
+                    else:
+                        r_ = t.image_molecules(sorted_bonds=sb, anchor_molecules=[{at[0], at[1]}], other_molecules=[{at[2], at[3]}])
+                    out[name + "|" + fname] = ["returned", bool(fname != "whole" or r_.xyz.tolist() == ref)]
+                except Exception as e:
+                    out[name + "|" + fname] = ["raised", type(e).__name__]
+                print("RESULT " + json.dumps(out)); sys.stdout.flush()
+    """) % (os.path.dirname(os.path.dirname(os.path.abspath(__file__))),)
+    ctx.case(None, ("sorted-bonds-argument",)); ctx.count("calls with a caller-supplied sorted_bonds (child process)", 12)
+    try:
+        pr = subprocess.run([sys.executable, "-c", code], capture_output=True, text=True, timeout=300)
+        lines = [l for l in pr.stdout.splitlines() if l.startswith("RESULT ")]
+        got = json.loads(lines[-1][7:]) if lines else {}
+        for name in ("list", "int64"):
+            for fname in ("whole", "image"):
+                r_ = got.get(name + "|" + fname)
+                if r_ != ["returned", True]:
+                    viol("whole|sorted_bonds-argument|usable-refused", "sorted_bonds given as %s to %s: %s (the default order as an int32 array is accepted)" % (
+                        name, fname, "the process ended" if r_ is None else r_), dict(kind=name, function=fname))
+        for name in ("beyond", "far-beyond", "negative", "very-negative"):
+            for fname in ("whole", "image"):
+                r_ = got.get(name + "|" + fname)
+                if r_ is None or r_[0] != "raised":
+                    viol("whole|sorted_bonds-argument|index-not-refused", "sorted_bonds with an atom index %s the coordinates given to %s: %s" % (
+                        name, "make_molecules_whole" if fname == "whole" else "image_molecules",
+                        "the process ended (exit %s)" % pr.returncode if r_ is None else "accepted; the kernel reads and writes outside the frame"), dict(kind=name, function=fname))
+    except subprocess.TimeoutExpired:
+        ctx.broke("harness:sorted-bonds-child", "the child process did not finish in 300 s")
     for key, (what, rp) in seen.items():
         ctx.violation(key, what, rp)
 
